@@ -12,6 +12,7 @@ import Nic.Drv.Policies
 import Nic.Drv.Lex
 import Nic.Drv.Re
 import Nic.Drv.Name
+import Nic.Drv.Tmpl
 /-!
   Model driver: one case per input line `<kind> <id> k=v ...`; for each it
   prints `model <id> <observation>` and `spec <id> <verdict>`.
@@ -19,7 +20,7 @@ import Nic.Drv.Name
 open Nic
 
 def dispatch (kind : String) (fs : List String) : Option (String × String) :=
-  (Drv.C13.run kind fs) <|> (Drv.Arb.run kind fs) <|> (Drv.Cls.run kind fs) <|> (Drv.Eps.run kind fs) <|> (Drv.Files.run kind fs) <|> (Drv.AP.run kind fs) <|> (Drv.Derived.run kind fs) <|> (Drv.Refs.run kind fs) <|> (Drv.Reload.run kind fs) <|> (Drv.Shapes.run kind fs) <|> (Drv.Policies.run kind fs) <|> (Drv.Lex.run kind fs) <|> (Drv.Re.run kind fs) <|> (Drv.Name.run kind fs)
+  (Drv.C13.run kind fs) <|> (Drv.Arb.run kind fs) <|> (Drv.Cls.run kind fs) <|> (Drv.Eps.run kind fs) <|> (Drv.Files.run kind fs) <|> (Drv.AP.run kind fs) <|> (Drv.Derived.run kind fs) <|> (Drv.Refs.run kind fs) <|> (Drv.Reload.run kind fs) <|> (Drv.Shapes.run kind fs) <|> (Drv.Policies.run kind fs) <|> (Drv.Lex.run kind fs) <|> (Drv.Re.run kind fs) <|> (Drv.Name.run kind fs) <|> (Drv.Tmpl.run kind fs)
 
 partial def loop (h : IO.FS.Stream) (out : IO.FS.Stream) : IO Unit := do
   let line ← h.getLine
